@@ -7,6 +7,8 @@
 (*   Rate    rate-limit cache: three clients, two of them sharing a slot,  *)
 (*           clock ticks (C20)                                             *)
 (*   Mut     layouts x structural mutations (C22)                          *)
+(*   Stats   the daemon's counter mapping, all (nts, reason, response)     *)
+(*           triples (C21)                                                 *)
 (* `Deep` = TRUE widens every alphabet (thorough tier).                    *)
 (***************************************************************************)
 EXTENDS Server, Json
@@ -150,6 +152,10 @@ Acts ==
                          \cup { [t |-> "Tick", n |-> n] : n \in {1, Cutoff - 1, Cutoff} }
     [] Slice = "Mut" -> UNION { { [t |-> "Mut", cfg |-> c, addr |-> ad, body |-> b, mut |-> m] : c \in MutCfgs, ad \in {A1, D4}, m \in MutsOf(b) } : b \in MutBases }
 
+    [] Slice = "Stats" -> { [t |-> "Reg", ver |-> 4, nts |-> n, reason |-> r, resp |-> q] : n \in BOOLEAN,
+                               r \in {"RateLimit", "ParseError", "InvalidCrypto", "InternalError", "Policy"},
+                               q \in {"NTSNak", "Deny", "Ignore", "ProvideTime"} }
+
 Init == st = InitState
 Next == \E a \in Acts : st' = Post(st, a)
 Spec == Init /\ [][Next]_vars
@@ -158,7 +164,7 @@ TypeOK == \A k \in 1..2 : st.cache[k].age \in 0..Cutoff
 
 \* structural assumptions of the alphabet (see the comment on the abstract datagram in Server.tla)
 AlphabetOK ==
-  \A a \in Acts : a.t = "Tick" \/
+  \A a \in Acts : a.t \in {"Tick", "Reg"} \/
     LET b == a.body IN
     /\ b.form = "pkt" => /\ (b.ver = 5 => b.tail < 4) /\ (b.ver = 4 => b.tail <= 24)
                          /\ \A i \in 1..Len(b.items) : /\ (b.ver = 4 => b.items[i].k = "auth" \/ b.items[i].n % 4 = 0)
@@ -175,13 +181,13 @@ C17_RequestSizedBufferSuffices == \A a \in Acts : C17_Step(st, a) \/ F4_Shape(a)
 C18_EchoOnly == All(C18_Step)
 C19_NtsAnswers == \A a \in Acts : C19_Step(st, a) \/ F16_Shape(a)
 C20_RateLimit == All(C20_Step)
-C21_Statistics == All(C21_Step)
+C21_Statistics == All(C21_Reg)
 C22_Total == All(C22_Step)
 
 StepOf(p, s, a) ==
   CASE p = "C15" -> C15_Step(s, a) [] p = "C16" -> C16_Step(s, a) [] p = "C17" -> C17_Step(s, a)
     [] p = "C18" -> C18_Step(s, a) [] p = "C19" -> C19_Step(s, a) [] p = "C20" -> C20_Step(s, a)
-    [] p = "C21" -> C21_Step(s, a) [] p = "C22" -> C22_Step(s, a)
+    [] p = "C21" -> C21_Reg(s, a) [] p = "C22" -> C22_Step(s, a)
 KnownShape(p, a) == CASE p = "C15" -> F3_Shape(a) [] p = "C17" -> F4_Shape(a) [] p = "C19" -> F16_Shape(a) [] OTHER -> FALSE
 Props == IF Prop = "all" THEN {"C15", "C16", "C17", "C18", "C19", "C20", "C21", "C22"} ELSE {Prop}
 
